@@ -1,0 +1,47 @@
+//! Verification hooks (only compiled with `--cfg parol_verif`).
+//!
+//! When the environment variable PAROL_LS_VERIF is set, the binary does not speak LSP but reads
+//! one JSON command per line from stdin and answers with one JSON line each. This only exposes
+//! internal functions to an external harness; it does not change the behaviour of the server.
+
+use std::io::BufRead;
+
+use lsp_types::{Position, Range};
+use serde_json::{Value, json};
+
+use crate::rng::Rng;
+use crate::utils::{extract_text_range, pos_to_offset};
+
+pub(crate) fn run() {
+    let stdin = std::io::stdin();
+    for line in stdin.lock().lines() {
+        let Ok(line) = line else { break };
+        let Ok(cmd) = serde_json::from_str::<Value>(&line) else {
+            println!("{}", json!({"error": "bad json"}));
+            continue;
+        };
+        let text = cmd["text"].as_str().unwrap_or("").to_owned();
+        let num = |k: &str| cmd[k].as_u64().unwrap_or(0) as u32;
+        let out = match cmd["op"].as_str().unwrap_or("") {
+            "pos_to_offset" => {
+                let pos = Position { line: num("line"), character: num("col") };
+                match std::panic::catch_unwind(|| pos_to_offset(&text, pos)) {
+                    Ok(o) => json!({"offset": o}),
+                    Err(_) => json!({"panic": true}),
+                }
+            }
+            "extract_text_range" => {
+                let rng = Rng(Range {
+                    start: Position { line: num("sl"), character: num("sc") },
+                    end: Position { line: num("el"), character: num("ec") },
+                });
+                match std::panic::catch_unwind(|| extract_text_range(&text, rng).to_owned()) {
+                    Ok(s) => json!({"text": s}),
+                    Err(_) => json!({"panic": true}),
+                }
+            }
+            _ => json!({"error": "unknown op"}),
+        };
+        println!("{out}");
+    }
+}
